@@ -12,26 +12,28 @@ def rt : P String := do
   let implF ← P.nats; let implI ← P.nat; P.eof
   let mf := toFactors sp id
   let mi := toIndexLoop sp mf 0 1
-  if mf != implF then return s!"diff toFactors model={mf} impl={implF}"
-  if mi != implI then return s!"diff toIndex model={mi} impl={implI}"
-  -- property clause evaluated on the implementation's own outputs: inverse + valid
-  if !(validB sp implF) then return s!"fail toFactors invalid_tuple {implF}"
-  if implI != id then return s!"fail toIndex not_inverse {implI}"
-  return (if sp.length ≤ 1 then "ok trivial" else "ok rt")
+  let v : Verdict := { tag := if sp.length ≤ 1 then "trivial" else "rt" }
+  let v := v.diffIf (mf != implF) s!"toFactors model={mf} impl={implF}"
+  let v := v.diffIf (mi != implI) s!"toIndex model={mi} impl={implI}"
+  -- property clauses evaluated on the implementation's own outputs: inverse + valid
+  let v := v.failIf (!(validB sp implF)) s!"toFactors invalid_tuple {implF}"
+  let v := v.failIf (implI != id) s!"toIndex not_inverse {implI}"
+  return v.render
 
-/-- `part sp keys id | implVals implIdxPF implIdxFull` :
-    toFactorsPartial, toIndexPartial(space, pf), toIndexPartial(keys, space, full f) -/
+/-- `part sp keys id full | implVals implIdxPF implIdxFull implSpace` -/
 def part : P String := do
   let sp ← P.nats; let keys ← P.nats; let id ← P.nat; let full ← P.nats; P.bar
   let implV ← P.nats; let implI ← P.nat; let implI2 ← P.nat; let implSpace ← P.nat; P.eof
   let mv := toFactorsPartial keys sp id
-  if mv != implV then return s!"diff toFactorsPartial model={mv} impl={implV}"
-  if toIndexPartialPF sp keys mv != implI then return s!"diff toIndexPartialPF model={toIndexPartialPF sp keys mv} impl={implI}"
-  if toIndexPartial keys sp full != implI2 then return s!"diff toIndexPartial model={toIndexPartial keys sp full} impl={implI2}"
-  if spacePartial keys sp != implSpace then return s!"diff factorSpacePartial model={spacePartial keys sp} impl={implSpace}"
-  if implI != id then return s!"fail toIndexPartial not_inverse {implI}"
-  if !(validB (sel keys sp) implV) then return s!"fail toFactorsPartial invalid_tuple {implV}"
-  return "ok part"
+  let v : Verdict := { tag := "part" }
+  let v := v.diffIf (mv != implV) s!"toFactorsPartial model={mv} impl={implV}"
+  let v := v.diffIf (toIndexPartialPF sp keys mv != implI) s!"toIndexPartialPF model={toIndexPartialPF sp keys mv} impl={implI}"
+  let v := v.diffIf (toIndexPartial keys sp full != implI2) s!"toIndexPartial model={toIndexPartial keys sp full} impl={implI2}"
+  let v := v.diffIf (spacePartial keys sp != implSpace) s!"factorSpacePartial model={spacePartial keys sp} impl={implSpace}"
+  let v := v.failIf (implI != id) s!"toIndexPartial not_inverse {implI}"
+  let v := v.failIf (implI2 != id) s!"toIndexPartial not_inverse_full {implI2}"
+  let v := v.failIf (!(validB (sel keys sp) implV)) s!"toFactorsPartial invalid_tuple {implV}"
+  return v.render
 
 /-- `enum dims skip | size seq…` : PartialFactorsEnumerator run to exhaustion -/
 def enum : P String := do
@@ -39,23 +41,26 @@ def enum : P String := do
   let implSize ← P.nat; let implSeq ← P.natss; P.eof
   let msize := enumSize skip dims
   let mseq := enumAll skip dims (msize + 2)
-  if msize != implSize then return s!"diff enum.size model={msize} impl={implSize}"
-  if mseq != implSeq then return s!"diff enum.seq model={mseq} impl={implSeq}"
+  let v : Verdict := { tag := "enum" }
+  let v := v.diffIf (msize != implSize) s!"enum.size model={msize} impl={implSize}"
+  let v := v.diffIf (mseq != implSeq) s!"enum.seq model={mseq} impl={implSeq}"
   -- property: each joint value exactly once in index order (on the impl's sequence)
-  let idxs := implSeq.map (fun v => toIndex (er 0 skip dims) (er 0 skip v))
-  if idxs != List.range (space (er 0 skip dims)) then return s!"fail enumerator not_in_index_order {idxs}"
-  if !(implSeq.all (fun v => validB dims v)) then return s!"fail enumerator invalid_tuple"
-  return "ok enum"
+  let idxs := implSeq.map (fun w => toIndex (er 0 skip dims) (er 0 skip w))
+  let v := v.failIf (idxs != List.range (space (er 0 skip dims))) s!"enumerator not_in_index_order {idxs}"
+  let v := v.failIf (!(implSeq.all (fun w => validB dims w))) s!"enumerator invalid_tuple"
+  let v := v.failIf (implSize != implSeq.length) s!"enumerator size_mismatch {implSize}"
+  return v.render
 
 /-- `pie sp fixed val | seq` : PartialIndexEnumerator -/
 def pie : P String := do
   let sp ← P.nats; let fixed ← P.nat; let val ← P.nat; P.bar
   let implSeq ← P.nats; P.eof
   let mseq := pieAll (pieInit sp fixed val) (space sp + 2)
-  if mseq != implSeq then return s!"diff pie.seq model={mseq} impl={implSeq}"
   let expect := (List.range (space sp)).filter (fun id => (toFactors sp id).getD fixed 0 == val)
-  if implSeq != expect then return s!"fail pie wrong_index_set {implSeq}"
-  return "ok pie"
+  let v : Verdict := { tag := "pie" }
+  let v := v.diffIf (mseq != implSeq) s!"pie.seq model={mseq} impl={implSeq}"
+  let v := v.failIf (implSeq != expect) s!"pie wrong_index_set {implSeq}"
+  return v.render
 
 def pairs : P (List (Nat × Nat)) := do
   let k ← P.nats; let v ← P.nats
@@ -66,9 +71,16 @@ def merge : P String := do
   let l ← pairs; let r ← pairs; P.bar
   let ik ← P.nats; let iv ← P.nats; let im ← P.bool; P.eof
   let m := mergePF l r
-  if m != ik.zip iv || ik.length != iv.length then return s!"diff merge model={m} impl={ik.zip iv}"
-  if matchPF l r != im then return s!"diff match model={matchPF l r} impl={im}"
-  return "ok merge"
+  let v : Verdict := { tag := "merge" }
+  let v := v.diffIf (m != ik.zip iv || ik.length != iv.length) s!"merge model={m} impl={ik.zip iv}"
+  let v := v.diffIf (matchPF l r != im) s!"match model={matchPF l r} impl={im}"
+  -- property: merged assignment agrees with rhs on rhs keys, with lhs on lhs-only keys; match = no conflicting common key
+  let keysU := (l.map (·.1) ++ r.map (·.1)).eraseDups
+  let specOK := keysU.all (fun k => lookup k (ik.zip iv) == (match lookup k r with | some x => some x | none => lookup k l))
+  let v := v.failIf (!specOK) s!"merge wrong_union"
+  let specMatch := keysU.all (fun k => match lookup k l, lookup k r with | some a, some b => a == b | _, _ => true)
+  let v := v.failIf (im != specMatch) s!"match wrong_answer {im}"
+  return v.render
 
 def handle (toks : List String) : String :=
   let r := match toks with
